@@ -250,7 +250,7 @@ pub static C14: SimpleProp = SimpleProp {
     level: "exploration",
     rule: "one evaluation = one history of 4-12 operations {decompress stream i (valid, bit-flipped, truncated, spliced, or cut short by an injected source error after k one-byte refills), reset(None), reset(Some(None)), reset(Some(Some(n)))} on a single raw::LzmaDecoder (any lc/lp/pb, dictionary 1..65536) or raw::Lzma2Decoder (streams with changing properties); after every reset the next decompress is compared (verdict, bytes, consumed count) with a freshly constructed decoder with the same parameters and the size last specified; non-trivial = at least one such comparison; distinct by scenario hash",
     runs_quick: 60_000,
-    runs_thorough: 3_000_000,
+    runs_thorough: 24_000_000,
     both_profiles: false,
     assumptions: &[
         "reset(None) keeps the size last specified (as the code documents); the fresh decoder is constructed with that size",
